@@ -8,6 +8,7 @@ import Drx.Spec.LingoRead
 import DrxProofs.SpecCompile
 import DrxProofs.SpecLayout
 import Drx.Spec.Supported
+import DrxProofs.SpecWithLike
 namespace DrxProps.C03
 open Drx Drx.Spec
 
@@ -20,7 +21,8 @@ def C03_full (decompile : Bytes → Bytes → Option (List Char)) : Prop :=
     ∃ text, decompile c.lscr c.lnam = some text ∧ readLingo text = some s
 
 /-- The part of the property the code is expected to satisfy: the same statement restricted to scripts all of whose handler bodies
-    avoid the four exit-repeat configurations of the open findings F23, F24, F25, F126 (`C03Supported`, decidable, defined on the
+    avoid the four exit-repeat configurations of the open findings F23, F24, F25, F126 and the one `repeat while` spelling that is
+    byte-identical to a `repeat with` (`C03Supported`, decidable, defined on the
     SOURCE tree in lean/Drx/Spec/Supported.lean). Evaluated, not proved: harness/c03.py checks on every run that on all enumerated
     skeletons (≤ 5 compound constructs) and random programs the real decompiler fails EXACTLY on the unsupported handlers. -/
 def C03_partial (decompile : Bytes → Bytes → Option (List Char)) : Prop :=
@@ -44,6 +46,32 @@ theorem supported_examples :
     ∧ C03Supported [.repeatWith (.var .loc "i".toList) (.int 1) (.int 9) false [put1, .ifThen cnd [.exitRepeat] [put1]]] = true
     ∧ C03Supported [.ifThen cnd [.repeatWhile cnd [.repeatIn (.var .loc "v".toList) (.list []) [.ifThen cnd [put1] [put1]]]] []] = true
     ∧ C03Supported [.ifThen cnd [.repeatWhile cnd [.ifThen cnd [.exitRepeat] [], .ifThen cnd [put1] []]] []] = true := by decide +kernel
+
+/-- empty bodies (then-branch, loop bodies) are inside `Supported` (F133: the empty then-branch used to raise IndexError) … -/
+theorem supported_empty_bodies :
+    C03Supported [.ifThen cnd [] []] = true
+    ∧ C03Supported [.ifThen cnd [] [put1], .repeatWhile cnd [], .repeatWith (.var .loc "i".toList) (.int 1) (.int 9) true []] = true
+    ∧ C03Supported [.repeatIn (.var .loc "v".toList) (.list []) [.ifThen cnd [] []]] = true := by decide +kernel
+
+/-- … and so are the `repeat while` loops that merely resemble a `repeat with` (step 7: F134, comparison `>`: F135, `v + 1`), but not
+    the one spelling that IS a `repeat with` byte for byte -/
+theorem withlike_examples :
+    let i : Expr := .var .loc "i".toList
+    C03Supported [.set i (.int 1), .repeatWhile (.bin .le i (.int 5)) [put1, .set i (.bin .add (.int 7) i)]] = true
+    ∧ C03Supported [.set i (.int 1), .repeatWhile (.bin .gt i (.int 5)) [put1, .set i (.bin .add (.int 1) i)]] = true
+    ∧ C03Supported [.set i (.int 1), .repeatWhile (.bin .le i (.int 5)) [put1, .set i (.bin .add i (.int 1))]] = true
+    ∧ C03Supported [.set i (.int 1), put1, .repeatWhile (.bin .le i (.int 5)) [put1, .set i (.bin .add (.int 1) i)]] = true
+    ∧ C03Supported [.set i (.int 1), .repeatWhile (.bin .le i (.int 5)) [put1, .set i (.bin .add (.int 1) i)]] = false
+    ∧ C03Supported [.ifThen cnd [.set i (.int 1), .repeatWhile (.bin .le i (.int 5)) [.set i (.bin .add (.int 1) i)]] []] = false := by
+  decide +kernel
+
+/-- why that spelling is excluded: a straight-line statement followed by a loop whose body ends in a straight-line statement is
+    laid out, in every context, exactly like the loop that carries them as its prologue and increment part — `set v = a` +
+    `repeat while v <= b … set v = 1 + v` and `repeat with v = a to b …` are the same bytes (compile is not injective there) -/
+theorem withlike_same_layout (init cond incr : List Instr) (body rest : List CStmt) (te : Option Nat) :
+    layoutStmts te (.code init :: .loop [] cond [] (body ++ [.code incr]) [] [] :: rest)
+      = layoutStmts te (.loop init cond [] body incr [] :: rest) :=
+  withLike_same_layout init cond incr body rest te
 
 /-- every jump offset of the layout is computed from sizes: the laid-out code of a statement list has exactly the size the
     scheme assumes (`CStmt.sizes`), for every control skeleton and every `toEnd` -/
